@@ -165,15 +165,21 @@ var restoreCmd = &cobra.Command{
 				return fmt.Errorf("fail to get tree: %w", err)
 			}
 
+			// args validation: nothing is restored unless every path is known
+			for _, arg := range args {
+				cleanedArg := filepath.Clean(arg)
+				cleanedArg = strings.ReplaceAll(cleanedArg, `\`, "/")
+				if len(stagedTargets(cleanedArg, client.Idx, tree)) == 0 {
+					return fmt.Errorf("error: pathspec '%s' did not match any file(s) known to goit", arg)
+				}
+			}
+
 			for _, arg := range args {
 				cleanedArg := filepath.Clean(arg)
 				cleanedArg = strings.ReplaceAll(cleanedArg, `\`, "/")
 
 				// a file known to HEAD or to the index, or every such file beneath a directory
 				paths := stagedTargets(cleanedArg, client.Idx, tree)
-				if len(paths) == 0 {
-					return fmt.Errorf("error: pathspec '%s' did not match any file(s) known to goit", arg)
-				}
 				for _, path := range paths {
 					if err := restoreIndex(client.RootGoitPath, path, client.Idx, tree); err != nil {
 						return err
@@ -181,20 +187,22 @@ var restoreCmd = &cobra.Command{
 				}
 			}
 		} else {
+			// args validation: nothing is restored unless every path is registered in the index, as a file or as a directory
+			for _, arg := range args {
+				cleanedArg := filepath.Clean(arg)
+				cleanedArg = strings.ReplaceAll(cleanedArg, `\`, "/")
+				_, _, isRegistered := client.Idx.GetEntry([]byte(cleanedArg))
+				if !(isRegistered || client.Idx.IsRegisteredAsDirectory(cleanedArg)) {
+					return fmt.Errorf("error: pathspec '%s' did not match any file(s) known to goit", arg)
+				}
+			}
+
 			// execute restore working directory
 			for _, arg := range args {
 				cleanedArg := filepath.Clean(arg)
 				cleanedArg = strings.ReplaceAll(cleanedArg, `\`, "/")
 
-				// check if the arg is registered in the index, as a file or as a directory
-				_, _, isRegistered := client.Idx.GetEntry([]byte(cleanedArg))
-				isRegisteredAsDir := client.Idx.IsRegisteredAsDirectory(cleanedArg)
-
-				if !(isRegistered || isRegisteredAsDir) {
-					return fmt.Errorf("error: pathspec '%s' did not match any file(s) known to goit", arg)
-				}
-
-				if isRegisteredAsDir {
+				if client.Idx.IsRegisteredAsDirectory(cleanedArg) {
 					// every tracked file beneath the directory, whether or not it exists on disk
 					entries := client.Idx.GetEntriesByDirectory(cleanedArg)
 					for _, entry := range entries {
